@@ -37,6 +37,11 @@ ASSUMPTIONS = [
     "71 x 50 region with 1.42, where even the orientation matters) is run but neither compared nor judged (counted in the evidence)",
     "initial_grid divides by the row/column count: compared exactly when the step is dyadic, within 16 roundings at the die's magnitude otherwise",
     "the model is written for the code as repaired by fixes/C11-phase2-aspect.diff",
+    "absolute scale: dies in other units (binary factors: exact, compared with the model up to n = 130; decimal factors and larger "
+    "counts: direct oracle only, the pieces must lie inside the region they were cut from within 1e-9 of the die's extent, overlap by "
+    "at most (1e-9 extent)^2 and cover each former region within 1e-9 of its area; counts, tags and aspect ratios exactly on the floats); "
+    "process state: when another die was built first (it defines the class-wide Rectangle tolerances) or the coordinates are decimal, the "
+    "refinement is judged only if the regions it starts from do not overlap (how a die is decomposed under foreign tolerances is C01 / C20)",
     "histories: the model of a call is a function of the object's five lists before the call and of the call's own arguments "
     "(DieOps.step_ok); a history is cut before the first split whose rounded aspect-ratio test would decide differently from the "
     "exact quotient (float-boundary, counted); a history whose grid cells are not binary fractions is compared step by step "
@@ -228,7 +233,7 @@ def gen_history(rng):
 
 # absolute scale: the same layouts in other units (a 10 mm die in metres, a die in nanometres); binary factors keep every
 # halving exact (model comparison as usual), decimal factors go to the direct oracle with a tolerance
-SCALES_DY = [F(1, 1024), F(1, 1024), F(1, 128), F(1, 16), F(64), F(1024), F(2 ** 20)]
+SCALES_DY = [F(1, 1024), F(1, 1024), F(1, 128), F(1, 16), F(1), F(64), F(1024), F(2 ** 20)]
 SCALES_DEC = [F(1, 1000), F(1, 1000), F(1, 100), F(1, 100), F(1, 10), F(10), F(1000), F(10 ** 6)]
 BIG_N = [64, 100, 128, 256, 300, 512, 600, 1000, 1024]
 PRE_FACTORS = [F(1, 1000), F(1, 8), F(1), F(8), F(1000), F(1000), F(1000), F(10 ** 6)]
@@ -911,13 +916,22 @@ def run(ctx, out, replay=None):
                 "(splits with equal / tighter / looser limits and growing or smaller counts, initial_grid first / after split(r, 1) / "
                 "refused after a real split / twice, refused splits, floorplanning_rectangles() in between; die built from YAML text, a "
                 "dict or the '<W>x<H>' string), lists read and compared after every step; non-trivial = n > 1, more than one grid "
-                "cell, or at least two modifying calls; distinct by canonical hash")
+                "cell, or at least two modifying calls; distinct by canonical hash; ABSOLUTE SCALE (7% of the cases + an eighth of "
+                "the histories): the same layouts in other units - binary factors 2^-10 .. 2^20 (exact; model comparison up to n = 130) "
+                "and decimal factors 10^-3 .. 10^6 (direct oracle, positions within 1e-9 of the die) - refined into up to 1024 regions; "
+                "PROCESS STATE (half of those, a tenth of the others): another die, up to 1000 times (seldom 10^6 times) larger or "
+                "smaller, is built and sometimes refined first in the same process, so the class-wide Rectangle tolerances come from it")
     cases = []
     if replay and "case" in replay:
         cases.append(fr.unjson(replay["case"]))
     cases += fr.load_corpus("C11")
     while len(cases) < n:
         cases.append(gen_case(ctx.rng))
+    for c in cases:
+        if c.get("scale") is not None:
+            out.count("scale:" + ("binary" if dyadic(c["scale"]) else "decimal") + ("/oracle-only" if oracle_only(c) else ""))
+        if c.get("pre"):
+            out.count("after-another-die")
     fr.run_cases(ctx, out, cases, run_impl, to_coq, oracle, failure_key, HEADER,
                  dist_key=dist_key, nontrivial=nontrivial, shard=40, shrink=shrink)
     out.extra["skipped_float_boundary_cases"] = SKIPPED["float-boundary"]
